@@ -4,6 +4,6 @@ tier=${1:-quick}
 cd /verif
 for c in C01 C02 C03 C04 C05 C06 C07 C08 C09 C10 C11 C12 C13 C14 C15 C16 C17 C18 C19 C20; do
   out=$(./check $c --tier $tier 2>&1); rc=$?
-  echo "$c rc=$rc $(echo "$out" | grep -E "^C[0-9]+ |HARNESS" | tail -1 | cut -c1-150)"
+  echo "$c rc=$rc $(echo "$out" | grep -v "^KNOWN" | grep -E "^C[0-9]+ |HARNESS" | tail -1 | cut -c1-150)"
   echo "$out" | grep -E "^VIOLATION" | head -5
 done
